@@ -100,7 +100,7 @@ OpOK(s, e) == /\ \A k \in 1..Len(e.src) : Known(s, e.src[k]) /\ e.src[k] \in s.l
               /\ e.act \in {"json", "dict", "deepcopy", "thermdat"}
               /\ e.act # "thermdat" => Len(e.src) = 1
               /\ e.act = "thermdat" => \A k \in 1..Len(e.src) : Carries(s.o[e.src[k]])
-              /\ \A k \in 1..(Len(e.src) - 1) : e.src[k] < e.src[k + 1]
+              /\ \A j, k \in 1..Len(e.src) : e.src[j] = e.src[k] => j = k
 ImgRec(r, act) ==
    IF act = "thermdat"
    THEN [r EXCEPT !.prec = "nine", !.fam = "nasa7", !.idem = IF r.prec = "nine" THEN r.cur ELSE NoC, !.cur = NoC]
